@@ -16,7 +16,16 @@ R-RECON-CTOR  every `self._x` read by the partition machinery of K (the methods 
               bodies must be created by an `__init__` on K's executed constructor chain.
 R-RECON-SUPPLY every constructor parameter of K reaches the rebuilt object: it is either copied
               (not excluded from `_copy_kwargs`) or supplied explicitly by the rebuild function, or it
-              is listed in the reasoned ABSORBED table.
+              is listed in the reasoned ABSORBED table.  The keyword arguments of the rebuilding
+              partial / constructor call are read however they are assembled (the `_copy_kwargs`
+              result, a dict display or dict(...) call, keywords written at `partial(...)`, item
+              stores, `{**a, **b}` / `a | b` merges, update / pop / del, along every path of both
+              functions; rules/kwassembly.py); the set supplied by the block function itself plus
+              the partial's keywords must cover every parameter of the constructor, and a value
+              written where the keywords are assembled must be the receiver's own value of that
+              parameter (self.<p> / self._<p> / an attribute the executed constructor chain computes
+              from <p>), not a constant and not another parameter's value.  An assembly that is not
+              readable is an analysis error as soon as a parameter is not among the readable keys.
 """
 from __future__ import annotations
 
@@ -41,6 +50,12 @@ ABSORBED = {
     ("Potential", "projection"): "consumed by the constructor into `integrator`, which is copied",
     ("MagneticField", "parametrization"): "consumed by the constructor into `integrator`, which is copied",
     ("VectorPotential", "parametrization"): "consumed by the constructor into `integrator`, which is copied",
+    ("Probe", "semiangle_cutoff"): "consumed by the constructor into `aperture`, which is copied (the rebuild function "
+                                   "drops the number when both are present: the constructor accepts only one of them)",
+    ("SMatrix", "sampling"): "derived: with a potential the constructor takes over the grid of the rebuilt potential "
+                             "block; without a potential the parameter is copied",
+    ("SMatrix", "extent"): "derived: with a potential the constructor takes over the grid of the rebuilt potential "
+                           "block; without a potential the parameter is copied",
 }
 
 
@@ -336,9 +351,40 @@ def _ctor_calls(g: FuncInfo, k: ClassInfo) -> list[ast.Call]:
     return [n for n in walk_no_nested(g.node) if isinstance(n, ast.Call) and dotted(n.func) in names]
 
 
+# values that are deliberately not the receiver's own value of the parameter, with the reason
+REPLACED = {
+    ("AtomsEnsemble", "ensemble_axes_metadata"):
+        "blocks of an AtomsEnsemble carry anonymous axes (one UnknownAxis per ensemble dimension): the rebuild "
+        "function cannot know which slice of a labelled axis the block holds; the assembled result takes its axes "
+        "from the parent ensemble (ArrayObject / potential metadata are computed outside the blocks)",
+}
+
+
+def _ctor_positional(repo: Repo, k: ClassInfo, params: list[str]) -> list[str]:
+    """Names a positional argument of `K(...)` binds to, in order."""
+    for c in k.mro():
+        f = c.own_method("__init__")
+        if f is not None:
+            a = f.node.args
+            return [x.arg for x in (a.posonlyargs + a.args)[1:]]
+        if is_dataclass(c):
+            return list(params)
+    return list(params)
+
+
+def _table(table: dict, k: ClassInfo, p: str) -> Optional[str]:
+    for c in k.mro():
+        if (c.name, p) in table:
+            return table[(c.name, p)]
+    return None
+
+
 def check_supply(ctx, rule: str = "R-RECON-SUPPLY") -> int:
+    from . import kwassembly as ka
+
     repo: Repo = ctx.repo
     n = 0
+    pending: list[AnalysisError] = []
     for k in concrete_classes(repo):
         f = k.find_method("_from_partitioned_args")
         if f is None or f.is_abstract:
@@ -346,96 +392,158 @@ def check_supply(ctx, rule: str = "R-RECON-SUPPLY") -> int:
         params = ctor_params(repo, k)
         if params is None:
             continue
-        rets = _returned_callables(f)
-        local_assign = {}
-        for st in walk_no_nested(f.node):
-            if isinstance(st, ast.Assign) and len(st.targets) == 1 and isinstance(st.targets[0], ast.Name):
-                local_assign.setdefault(st.targets[0].id, []).append(st.value)
-        decided = False
-        for r in rets:
-            if isinstance(r, ast.Name) and len(local_assign.get(r.id, [])) == 1:
-                r = local_assign[r.id][0]
+        positional = _ctor_positional(repo, k, params)
+        base_ex = exclude_from_copy(k)
+        orig_cache: list = []
+
+        def orig():
+            if not orig_cache:
+                orig_cache.append(ka.origins(repo, k, params))
+            return orig_cache[0]
+
+        def copy_reader(call: ast.Call, _k=k, _f=f, _params=params, _base_ex=base_ex):
+            if call_name(call) != "self._copy_kwargs":
+                return None
+            m = ka.KwMap()
+            cparams = _params
+            ckw = next((kw.value for kw in call.keywords if kw.arg == "cls"), None)
+            if ckw is not None:
+                t = repo.resolve_name(_f.module, dotted(ckw) or "")
+                cparams = ctor_params(repo, t) if isinstance(t, ClassInfo) else None
+                if cparams is None:
+                    m.mark_open(f"`{norm_call(call)}` copies the parameters of a class that is not resolved")
+                    return m
+            ex = _literal_exclude(call, _k, repo)
+            if ex is None:
+                m.mark_open(f"`{norm_call(call)}`: the excluded names are not statically known")
+                return m
+            m.excluded = set(ex)
+            for p in cparams:
+                if p not in ex and p not in _base_ex:
+                    m.entries[p] = ka.Entry("copied")
+            return m
+
+        try:
+            rd = ka.Reader(f, copy_reader)
+            rd.run()
+        except AnalysisError as e:
+            pending.append(e)
+            continue
+        selfname = f.positional_params[0] if f.positional_params else "self"
+        # (return statement, constructor call) -> findings over all paths
+        results: dict[tuple[int, int], dict] = {}
+        for ret, rexpr, st in rd.returns:
+            r = ka.resolve(rexpr, st)
             if isinstance(r, ast.Lambda):
                 continue  # degenerate empty-ensemble arm returning self
-            supplied: set[str] = set()
-            dynamic = False
-            excluded: set[str] = set()
             g = None
+            kwmap = ka.KwMap()
             if isinstance(r, ast.Call) and call_name(r) in ("partial", "functools.partial") and r.args:
                 g = _resolve_self_func(k, r.args[0])
-                for kw in r.keywords:
-                    if kw.arg is not None:
-                        supplied.add(kw.arg)
-                    else:
-                        v = kw.value
-                        if isinstance(v, ast.Name) and len(local_assign.get(v.id, [])) == 1:
-                            v = local_assign[v.id][0]
-                        if isinstance(v, ast.Call) and call_name(v) == "self._copy_kwargs":
-                            ex = _literal_exclude(v, k, repo)
-                            if ex is None:
-                                dynamic = True
-                                continue
-                            excluded = ex
-                            supplied |= {p for p in params if p not in ex and p not in exclude_from_copy(k)}
-                        else:
-                            dynamic = True
-                # kwargs["x"] = ... stores on the copied kwargs before the partial is built
-                for st in walk_no_nested(f.node):
-                    if isinstance(st, ast.Assign):
-                        for t in st.targets:
-                            if isinstance(t, ast.Subscript) and isinstance(t.slice, ast.Constant) and isinstance(
-                                    t.slice.value, str):
-                                supplied.add(t.slice.value)
+                kwmap = rd.call_keywords(r, st)
             elif dotted(r) is not None:
                 if dotted(r) in ("self.__class__", "cls"):
                     continue
                 g = _resolve_self_func(k, r)
             if g is None:
-                ctx.info(rule, f"{k.qualname}", f.where, f"rebuild callable {ast.unparse(r)[:60]} not resolvable")
+                pending.append(AnalysisError(
+                    f"{rule}: {k.qualname}: the callable returned by {f.short} (`{norm_call(r)}`) is not resolved to a "
+                    "method of the class; the keyword arguments it is given are not read"))
                 continue
-            ctors = _ctor_calls(g, k)
-            if not ctors:
+            f_side = {id(e) for e in kwmap.entries.values()}
+            # keywords bound to the rebuild function's own parameters do not travel on in its **kwargs
+            forwarded = kwmap.clone()
+            for name in list(forwarded.entries):
+                if name in g.params:
+                    del forwarded.entries[name]
+            init = ka.State()
+            if g.node.args.kwarg is not None:
+                init.maps[g.node.args.kwarg.arg] = forwarded
+            names = {"cls", "self.__class__", k.name} | {c.name for c in k.mro()}
+            found: list[tuple[ast.Call, ka.State]] = []
+
+            def on_call(call: ast.Call, state, _names=names, _found=found):
+                if dotted(call.func) in _names:
+                    _found.append((call, state.clone()))
+
+            try:
+                rg = ka.Reader(g, lambda call: None, on_call)
+                rg.run(init)
+            except AnalysisError as e:
+                pending.append(e)
+                continue
+            if not found:
                 # the block already holds a finished object (e.g. LineScan blocks are built in _partition_args)
                 ctx.info(rule, f"{k.qualname}", g.where, f"{g.short} does not construct {k.name}; blocks are prebuilt")
                 continue
-            for c in ctors:
-                s2 = set(supplied) if any(kw.arg is None for kw in c.keywords) else set()
-                dyn2 = dynamic
-                for p, a in zip(params, c.args):
+            for c, cst in found:
+                res = results.setdefault((id(ret), id(c)), {"g": g, "c": c, "missing": {}, "value": {}, "info": {}})
+                m = rg.call_keywords(c, cst)
+                supplied = set(m.entries)
+                for i, a in enumerate(c.args):
                     if isinstance(a, ast.Starred):
-                        dyn2 = True
+                        if i < len(positional):
+                            m.mark_open(f"`*{ast.unparse(a.value)}` spread over the positional parameters")
                         break
-                    s2.add(p)
-                for kw in c.keywords:
-                    if kw.arg is not None:
-                        s2.add(kw.arg)
-                # dynamic key stores in g: kwargs[name] = ... / {**kwargs, **{key: arg ...}}
-                dyn_keys = any(isinstance(st, ast.Assign) and any(isinstance(t, ast.Subscript) and not isinstance(
-                    t.slice, ast.Constant) for t in st.targets) for st in walk_no_nested(g.node)) or any(
-                    isinstance(x, ast.DictComp) for x in walk_no_nested(g.node))
-                missing = []
+                    if i < len(positional):
+                        supplied.add(positional[i])
                 for p in params:
-                    if p in s2:
+                    if p in supplied:
                         continue
-                    if (k.name, p) in ABSORBED or any((b.name, p) in ABSORBED for b in k.mro()):
+                    why = _table(ABSORBED, k, p)
+                    if why is not None:
                         continue
-                    if dyn_keys and p in excluded:
+                    if ka.COMPUTED in m.open and p in m.excluded:
                         continue  # supplied under a computed key from the partitioned arguments
-                    if dyn2:
+                    if m.open:
+                        pending.append(AnalysisError(
+                            f"{rule}: {k.qualname}: cannot decide whether the constructor parameter `{p}` is supplied "
+                            f"when {g.short} rebuilds a block: the keyword arguments are assembled in a way that is "
+                            f"not read ({'; '.join(m.open)})"))
                         continue
-                    missing.append(p)
-                n += 1
-                decided = True
-                if not missing:
-                    ctx.ok(rule, k.qualname, g.loc(c),
-                           f"all {len(params)} constructor parameters reach the rebuilt {k.name} ({g.short})")
-                for p in missing:
-                    ctx.violation(rule, f"{k.qualname}:{p}", g.loc(c),
-                                  f"constructor parameter `{p}` of {k.name} is not passed when {g.short} rebuilds a "
-                                  f"block ({norm_call(c)}): blocks silently use the default instead of the "
-                                  "original object's value", key_detail="")
-        if not decided:
-            continue
+                    res["missing"][p] = "removed from the keyword arguments again" if p in m.removed else ""
+                # every value written where the keywords are assembled is the receiver's own value of that parameter
+                for p in params:
+                    e = m.entries.get(p)
+                    if e is None or id(e) not in f_side or e.kind != "value":
+                        continue
+                    why = _table(REPLACED, k, p)
+                    if why is not None:
+                        res["info"][p] = why
+                        continue
+                    verdict, text = ka.classify_value(repo, k, orig(), p, e.expr, params, selfname)
+                    if verdict == "own":
+                        continue
+                    if verdict == "unknown":
+                        pending.append(AnalysisError(
+                            f"{rule}: {k.qualname}: {f.short} supplies the constructor parameter `{p}` with {text}"))
+                        continue
+                    res["value"][p] = (verdict, text)
+        for (_, _), res in results.items():
+            g, c = res["g"], res["c"]
+            n += 1
+            for p, why in res["info"].items():
+                ctx.info(rule, f"{k.qualname}:{p}", f.where, f"`{p}` is deliberately replaced: {why}")
+            if not res["missing"] and not res["value"]:
+                ctx.ok(rule, k.qualname, g.loc(c),
+                       f"all {len(params)} constructor parameters reach the rebuilt {k.name} ({g.short})")
+            for p, extra in res["missing"].items():
+                ctx.violation(rule, f"{k.qualname}:{p}", g.loc(c),
+                              f"constructor parameter `{p}` of {k.name} is not passed when {g.short} rebuilds a "
+                              f"block ({norm_call(c)}){' — ' + extra if extra else ''}: blocks silently use the "
+                              "default instead of the original object's value", key_detail="")
+            for p, (verdict, text) in res["value"].items():
+                if verdict == "constant":
+                    msg = (f"constructor parameter `{p}` of {k.name} is supplied with a value that is the same for "
+                           f"every receiver ({text}) where {f.short} assembles the keyword arguments of the rebuilt "
+                           f"blocks: the blocks do not carry the original object's `{p}`")
+                else:
+                    msg = (f"constructor parameter `{p}` of {k.name} is supplied from another parameter's value "
+                           f"({text}) where {f.short} assembles the keyword arguments of the rebuilt blocks: the blocks "
+                           f"do not carry the original object's `{p}`")
+                ctx.violation(rule, f"{k.qualname}:{p}", f.where, msg, key_detail="value")
+    if pending:
+        raise pending[0]
     return n
 
 
